@@ -758,3 +758,281 @@ func c15OverlapRemove(t *testing.T, out *vfOut, srv *c15Server) {
 		Defs: defs,
 	})
 }
+
+// c15OverlapDisable (after round 8; /repo fix 7322afe): list T (block list 1 or
+// allow list 11) is stored and enabled; a forced pass over its array takes its
+// working copies and starts the download, which the list server holds back
+// after gate bytes; meanwhile set_url DISABLES the list (the real
+// filterSetProperties, then the rebuild the handler asks for); the server goes
+// on, the pass stores the download and copies rule count and checksum back into
+// the entry, which is disabled by now; then set_url ENABLES the list, its
+// source delivering the same content (same = true) or other content; then a
+// forced pass with that content again.  The Coq side replays the overlapped
+// pass as ROver (Model/Refresh.v refresh_over).  The monitor judges directly:
+// after the enabling call the stored file is the normal form of what the
+// source delivers, the rule count is its number of rules, and the probe name
+// that only this content has gets the list's verdict.  With other = true a
+// second list of the same array is downloaded by the same pass (not gated).
+func c15OverlapDisable(t *testing.T, out *vfOut, srv *c15Server, allow, other, same bool, gate int) {
+	prevProcs := runtime.GOMAXPROCS(1)
+	defer runtime.GOMAXPROCS(prevProcs)
+
+	T := int64(1)
+	if allow {
+		T = 11
+	}
+	O := T + 1
+	oldA := "||p3.example^\n"
+	newA := "! Title: Gated\n||p1.example^\r\n  ||p2.example^\n"
+	normA := "||p1.example^\n||p2.example^\n"
+	nextA, normNext := newA, normA
+	if !same {
+		nextA, normNext = "||p2.example^\n# c\n", "||p2.example^\n"
+	}
+	oldC, newC := "||c-old.invalid^\n", "||c-new.invalid^\n||c-more.invalid^\n"
+
+	dir := t.TempDir()
+	conf := &Config{
+		DataDir:                    dir,
+		HTTPClient:                 &http.Client{Timeout: 30 * time.Second, Transport: &http.Transport{DisableKeepAlives: true}},
+		FiltersUpdateIntervalHours: 24,
+		FilteringEnabled:           true,
+	}
+	mk := func(id int64) FilterYAML {
+		return FilterYAML{Enabled: true, URL: fmt.Sprintf("%s/l/%d", srv.url, id), Name: fmt.Sprintf("list %d", id), Filter: Filter{ID: rulelist.URLFilterID(id)}, white: allow}
+	}
+	ids := []int64{T}
+	if other {
+		ids = append(ids, O)
+	}
+	for _, id := range ids {
+		if allow {
+			conf.WhitelistFilters = append(conf.WhitelistFilters, mk(id))
+		} else {
+			conf.Filters = append(conf.Filters, mk(id))
+		}
+	}
+	d, err := New(conf, nil)
+	if err != nil {
+		t.Fatal(err)
+	}
+	defer d.Close()
+	d.EnableFilters(false)
+
+	monOK, monMsg, monKey := true, "", ""
+	bad := func(key, msg string) {
+		if monOK {
+			monOK, monMsg, monKey = false, msg, key
+		}
+	}
+	arr := &d.conf.Filters
+	if allow {
+		arr = &d.conf.WhitelistFilters
+	}
+	observe := func() map[int64]c15Obs {
+		m := map[int64]c15Obs{}
+		for i := range *arr {
+			f := &(*arr)[i]
+			o := c15Obs{count: f.RulesCount, sum: f.checksum, name: f.Name, enabled: f.Enabled, url: int64(f.ID)}
+			if b, rerr := os.ReadFile(f.Path(dir)); rerr == nil {
+				o.file, o.exists = b, true
+				if fi, serr := os.Stat(f.Path(dir)); serr == nil {
+					o.ino = fi.Sys().(*syscall.Stat_t).Ino
+				}
+			}
+			m[int64(f.ID)] = o
+		}
+		return m
+	}
+	verdictOf := func(host string) int {
+		res, cerr := d.CheckHost(host, dns.TypeA, &Settings{FilteringEnabled: true, ProtectionEnabled: true})
+		switch {
+		case cerr != nil:
+			return 9
+		case res.Reason == FilteredBlockList:
+			return 1
+		case res.Reason == NotFilteredAllowList:
+			return 2
+		}
+		return 0
+	}
+	verdicts := func() (vs []string) {
+		for _, p := range c15Probes {
+			vs = append(vs, vfN(uint64(verdictOf(p))))
+		}
+		return vs
+	}
+	var defs []vfDef
+	obsTerms := func(prev, cur map[int64]c15Obs) (ts []string) {
+		for _, id := range ids {
+			ts = append(ts, c15ObsTerm(&defs, id, prev[id], cur[id]))
+		}
+		return ts
+	}
+	body := func(s string) string { return vfApp("OBody", vfBytes(s), vfBool(false)) }
+	ocs := func(a, c string) string {
+		l := []string{vfPair(vfN(uint64(T)), body(a))}
+		if other {
+			l = append(l, vfPair(vfN(uint64(O)), body(c)))
+		}
+		return vfList("N * outcome", l)
+	}
+	setScripts := func(a c15Script, c string) {
+		srv.mu.Lock()
+		for k := range srv.scripts {
+			delete(srv.scripts, k)
+		}
+		srv.scripts[fmt.Sprint(T)] = a
+		srv.scripts[fmt.Sprint(O)] = c15Script{Kind: "ok", Content: c}
+		srv.stalled, srv.resume = make(chan struct{}, 1), make(chan struct{})
+		srv.mu.Unlock()
+	}
+	want := 1
+	if allow {
+		want = 2
+	}
+	listURL := fmt.Sprintf("%s/l/%d", srv.url, T)
+	listName := fmt.Sprintf("list %d", T)
+
+	var steps []string
+	prev := observe()
+
+	// Step 1: the list is stored.
+	setScripts(c15Script{Kind: "ok", Content: oldA}, oldC)
+	upd, netErr, _ := d.tryRefreshFilters(!allow, allow, true)
+	cur := observe()
+	steps = append(steps, vfApp("RStep", vfBool(!allow), vfBool(allow), vfBool(true), vfList("N", nil), ocs(oldA, oldC),
+		vfN(uint64(upd)), vfBool(netErr), vfList("lobs", obsTerms(prev, cur)), vfList("N", verdicts())))
+	prev = cur
+
+	// Step 2: the pass, held back in the download of list T; the list is
+	// disabled meanwhile; the pass goes on.
+	setScripts(c15Script{Kind: "ok", Content: newA, gateAt: gate}, newC)
+	type refreshRes struct {
+		upd    int
+		netErr bool
+		ok     bool
+	}
+	done := make(chan refreshRes, 1)
+	go func() {
+		var r refreshRes
+		r.upd, r.netErr, r.ok = d.tryRefreshFilters(!allow, allow, true)
+		done <- r
+	}()
+	select {
+	case <-srv.stalled:
+	case <-time.After(60 * time.Second):
+		t.Fatal("the refresh has not reached its source")
+	}
+	for i := 0; i < 10; i++ {
+		runtime.Gosched()
+		time.Sleep(5 * time.Millisecond)
+	}
+	restart, serr := d.filterSetProperties(listURL, FilterYAML{Enabled: false, Name: listName, URL: listURL}, allow)
+	if serr == nil && restart {
+		d.EnableFilters(false)
+	}
+	if serr != nil || !restart {
+		bad("C15/overlap-set-failed", fmt.Sprintf("set_url disabling list %d while its refresh is in flight: restart %v, error %v", T, restart, serr))
+	}
+	if v := verdictOf("p3.example"); v != 0 {
+		bad("C15/disable-wrong", fmt.Sprintf("list %d has been disabled (its refresh still in flight) but p3.example, a rule of its stored file, has verdict %d", T, v))
+	}
+	close(srv.resume)
+	var rr refreshRes
+	select {
+	case rr = <-done:
+	case <-time.After(60 * time.Second):
+		t.Fatal("the refresh has not finished")
+	}
+	cur = observe()
+	if !rr.ok || rr.netErr {
+		bad("C15/overlap-refresh-failed", fmt.Sprintf("the refresh of list %d held back by its source: ok %v, network error %v, updated %d", T, rr.ok, rr.netErr, rr.upd))
+	}
+	if o := cur[T]; o.enabled {
+		bad("C15/disable-wrong", fmt.Sprintf("list %d was disabled during its refresh but is enabled after it", T))
+	}
+	if v := verdictOf("p1.example"); v != 0 {
+		bad("C15/disable-wrong", fmt.Sprintf("list %d is disabled but p1.example, a rule of the download that finished after the call, has verdict %d", T, v))
+	}
+	overObs := cur[T]
+	steps = append(steps, vfApp("ROver", vfBool(allow), vfBool(true), vfList("N", nil), ocs(newA, newC),
+		vfN(uint64(T)), vfBytes(listName), vfN(uint64(T)), vfBool(false), "OOpenErr",
+		vfN(uint64(rr.upd)), vfBool(rr.netErr), vfList("lobs", obsTerms(prev, cur)), vfList("N", verdicts())))
+	prev = cur
+
+	// Step 3: the list is enabled again.
+	setScripts(c15Script{Kind: "ok", Content: nextA}, newC)
+	restart, serr = d.filterSetProperties(listURL, FilterYAML{Enabled: true, Name: listName, URL: listURL}, allow)
+	if serr == nil && restart {
+		d.EnableFilters(false)
+	}
+	cur = observe()
+	probe := "p1.example"
+	if !same {
+		probe = "p2.example"
+	}
+	switch o := cur[T]; {
+	case serr != nil || !restart:
+		bad("C15/enable-failed", fmt.Sprintf("set_url enabling list %d, its source delivering %q: restart %v, error %v", T, nextA, restart, serr))
+	case !o.enabled || !o.exists || string(o.file) != normNext || o.count != strings.Count(normNext, "\n"):
+		bad("C15/reenable-after-overlap-lost-file", fmt.Sprintf("list %d: refresh in flight (source held back after %d bytes of %q), set_url disables the list, the refresh finishes (file %q, count %d, checksum %08x, enabled %v), set_url enables it, the source delivering %q: enabled %v, count %d, checksum %08x, stored file %q (exists %v); want %q",
+			T, gate, newA, overObs.file, overObs.count, overObs.sum, overObs.enabled, nextA, o.enabled, o.count, o.sum, o.file, o.exists, normNext))
+	case verdictOf(probe) != want:
+		bad("C15/reenable-after-overlap-rules-not-in-force", fmt.Sprintf("list %d enabled again after a refresh that overlapped its disabling; %s is a rule of its source (%q) and of its file %q, but its verdict is %d, want %d", T, probe, nextA, o.file, verdictOf(probe), want))
+	}
+	steps = append(steps, vfApp("RSet", vfBool(allow), vfN(uint64(T)), vfBytes(listName), vfN(uint64(T)), vfBool(true),
+		body(nextA), vfBool(restart), vfBool(serr != nil), vfList("lobs", obsTerms(prev, cur)), vfList("N", verdicts())))
+	prev = cur
+
+	// Step 4: the same content again: nothing is rewritten, the rules stay.
+	setScripts(c15Script{Kind: "ok", Content: nextA}, newC)
+	upd, netErr, _ = d.tryRefreshFilters(!allow, allow, true)
+	cur = observe()
+	if monOK && (upd != 0 || cur[T].ino != prev[T].ino || !cur[T].exists) {
+		bad("C15/same-checksum-rewritten", fmt.Sprintf("list %d: the source delivers what is stored (%q), but the pass reports %d update(s), file replaced: %v, exists: %v", T, normNext, upd, cur[T].ino != prev[T].ino, cur[T].exists))
+	}
+	if monOK && verdictOf(probe) != want {
+		bad("C15/reenable-after-overlap-rules-not-in-force", fmt.Sprintf("list %d: after the next refresh %s has verdict %d, want %d", T, probe, verdictOf(probe), want))
+	}
+	steps = append(steps, vfApp("RStep", vfBool(!allow), vfBool(allow), vfBool(true), vfList("N", nil), ocs(nextA, newC),
+		vfN(uint64(upd)), vfBool(netErr), vfList("lobs", obsTerms(prev, cur)), vfList("N", verdicts())))
+
+	var probes, ls []string
+	for _, p := range c15Probes {
+		probes = append(probes, vfBytes(p))
+	}
+	for _, id := range ids {
+		ls = append(ls, vfPair(vfPair(vfN(uint64(id)), vfBool(true)), vfBytes(fmt.Sprintf("list %d", id))))
+	}
+	bl, al := vfList("N * bool * list N", ls), vfList("N * bool * list N", nil)
+	if allow {
+		bl, al = al, bl
+	}
+	cls := []string{"overlap", "overlap-disable-during-refresh", "overlap-disable-gate-mid-line"}
+	if newA[gate-1] == '\n' {
+		cls[2] = "overlap-disable-gate-at-line-boundary"
+	}
+	if same {
+		cls = append(cls, "overlap-reenable-same-content")
+	} else {
+		cls = append(cls, "overlap-reenable-other-content")
+	}
+	if other {
+		cls = append(cls, "overlap-disable-beside-updated-list")
+	}
+	if allow {
+		cls = append(cls, "allow-list")
+	}
+	out.Emit(vfCase{
+		Coq:        vfApp("CRefresh", bl, al, vfList("list N", probes), vfList("rstep", steps)),
+		Nontrivial: true,
+		Classes:    cls,
+		MonitorOK:  monOK,
+		MonitorMsg: monMsg,
+		FindingKey: monKey,
+		Desc: map[string]any{"overlap": "forced refresh of the list held back by its source; set_url disables the list meanwhile; the refresh finishes; set_url enables the list; a forced refresh with the same content; GOMAXPROCS(1)",
+			"list": T, "allow": allow, "second_list_in_the_array": other, "gate_after_bytes": gate, "body_of_the_pass": newA, "body_at_enabling": nextA},
+		Defs: defs,
+	})
+}
